@@ -1,6 +1,6 @@
 SPECIFICATION Spec
-CONSTANTS InSession = @INSESSION@  Cmds <- @CMDS@  MaxCalls = @MAXCALLS@  MaxAttempts = @MAXATT@  EnvCodes <- @CODES@ DupCodes <- @DUPCODES@ StaleCodes <- CodesOkErr NeedsBody <- NeedsBodyDef  EnvKinds <- @KINDS@
-  G_Flag = TRUE G_Sid = TRUE G_Match = TRUE G_Rebuild = TRUE G_PreInc = TRUE G_Temp = TRUE G_Terminal = TRUE
+CONSTANTS InSession = @INSESSION@  Cmds <- @CMDS@  MaxCalls = @MAXCALLS@  MaxAttempts = @MAXATT@  EnvCodes <- @CODES@ DupCodes <- @DUPCODES@ StaleCodes <- CodesOkErr NeedsBody <- NeedsBodyDef Refused <- RefusedDef  EnvKinds <- @KINDS@
+  G_Flag = TRUE G_Sid = TRUE G_Match = TRUE G_Rebuild = TRUE G_PreInc = TRUE G_Temp = TRUE G_Terminal = TRUE G_SeqAfterBuild = TRUE
   AuthNum = @AUTH@  IntegNum = @INTEG@
 INVARIANT Emit
 CHECK_DEADLOCK FALSE
